@@ -1,1 +1,1 @@
-
+import RoGen.Catalogue
